@@ -201,14 +201,14 @@ func c13Options() (np, ul, ur, ie bool) {
 }
 
 // Default (unsorted, half-streaming) mode against the nested-loop join of the statement.
-//verif:opts engine-only maxpaths=60000
+//verif:opts engine-only maxpaths=60000 maxpaths_thorough=900000
 func VerifC13_unsorted_vs_nested_loop() {
 	verifReplace("github.com/johnkerl/miller/v6/pkg/input.Create", c13InputCreate)
 	n := c13N()
 	s := c13Schemes()[verifChoice("scheme", 3)]
 	np, ul, ur, ie := c13Options()
 	L := c13Side("left", n)
-	R := c13Side("right", n)
+	R := c13Side("right", 2) // (3 x 3 in the thorough tier exhausted the path budget: 3 left x 2 right)
 	c13LeftRecs = c13Build(L, s.lk, "lid", "L")
 	rights := c13Build(R, s.rk, "rid", "R")
 
@@ -219,7 +219,7 @@ func VerifC13_unsorted_vs_nested_loop() {
 	// the right-driven part: right-stream order, left-file order within a key
 	pos := 0
 	leftPaired := make([]bool, n)
-	for j := 0; j < n; j++ {
+	for j := 0; j < len(R); j++ {
 		matched := false
 		if c13KeyOK(R[j], ie) {
 			for i := 0; i < n; i++ {
@@ -285,14 +285,14 @@ func c13Identity(o *types.RecordAndContext, s c13Scheme) (int, int) {
 // Sorted-input mode (-s, the real JoinBucketKeeper state machine) against the default mode on
 // inputs sorted by the join key: same multiset of records.  Records lacking the key may sit
 // anywhere; the keyed records of each side are in non-decreasing lexical order.
-//verif:opts engine-only maxpaths=60000
+//verif:opts engine-only maxpaths=60000 maxpaths_thorough=900000
 func VerifC13_sorted_equals_unsorted_on_sorted_input() {
 	verifReplace("github.com/johnkerl/miller/v6/pkg/input.Create", c13InputCreate)
 	n := c13N()
 	s := c13Schemes()[verifChoice("scheme", 2)]
 	np, ul, ur, ie := c13Options()
 	L := c13Side("left", n)
-	R := c13Side("right", n)
+	R := c13Side("right", 2)
 	for _, side := range [][]c13Rec{L, R} {
 		prev := -1
 		for i := range side {
